@@ -212,7 +212,7 @@ func (e EncSpec) Encoder() encode.Encoder {
 	switch e.Name {
 	case "I32":
 		return encode.I32{}
-	case "String16":
+	case "String16", "String16L":
 		return encode.String16{}
 	case "VarEnc":
 		return VarEnc{}
@@ -247,7 +247,7 @@ func (e EncSpec) Encoder() encode.Encoder {
 // FixedWidth reports the encoded width for fixed-width encoders, -1 for variable.
 func (e EncSpec) FixedWidth() int {
 	switch e.Name {
-	case "String16", "VarEnc":
+	case "String16", "String16L", "VarEnc":
 		return -1
 	case "Dummy":
 		return 0
@@ -307,6 +307,14 @@ func (e EncSpec) Values(ids []int) interface{} {
 		for i, x := range ids {
 			// variable width: length depends on id
 			r[i] = strings.Repeat("v", x%5) + fmt.Sprintf("%d", x)
+		}
+		return r
+	case "String16L":
+		// long variable-width values: 0..699 bytes, so the value array's position
+		// bitmap spans many words and its select index many entries
+		r := make([]string, n)
+		for i, x := range ids {
+			r[i] = strings.Repeat(string([]byte{byte('a' + x%26)}), (x*37)%700) + fmt.Sprintf("#%d", x)
 		}
 		return r
 	case "VarEnc":
@@ -519,6 +527,20 @@ func (b *Built) WantVal(i int) interface{} {
 		return nil
 	}
 	return b.Decoded[i]
+}
+
+// Match reports whether got is an acceptable value for input key i (i < 0: no
+// key, got must be nil).  When no value array is materialised (every retained
+// encoding is empty) both nil and Decode(empty) are accepted: the statement does
+// not fix which of the two a zero-width value reads back as.
+func (b *Built) Match(i int, got interface{}) bool {
+	if i < 0 || b.Decoded == nil {
+		return got == nil
+	}
+	if b.AllEmpty && got == nil {
+		return true
+	}
+	return reflect.DeepEqual(got, b.Decoded[i])
 }
 
 // KeptKeys returns the retained keys in order.
